@@ -280,6 +280,63 @@ wait:
 	return b
 }
 
+// lateJoinerBatch: an execution that starts under a context that has already ended while an earlier execution under
+// the same context value is still on its way out (held in a native call); the late one loops for ever and must be
+// stopped at once all the same.  For the protocol this is an endless script under an expired context.
+func lateJoinerBatch(hold time.Duration) *tBatch {
+	b := &tBatch{Shape: "late-joiner", Infinite: true, Deadline: -1, Conc: 1, Prompt: true}
+	runtime.GC()
+	b.Before = settleGoroutines(0, 50*time.Millisecond)
+	test := ecmascript.NewInterpreter()
+	test.Test = true
+	ctx, cancel := context.WithTimeout(context.Background(), 40*time.Millisecond)
+	defer cancel()
+	first := make(chan bool, 1)
+	go func() {
+		defer func() { recover(); first <- true }()
+		test.Exec(ctx, match.Bindings{}, nil, fmt.Sprintf("_.sleep(%d); return {};", hold.Milliseconds()), nil)
+	}()
+	time.Sleep(hold / 3) // the context is over, the first execution still registered
+	done := make(chan error, 1)
+	t0 := time.Now()
+	go func() {
+		defer func() {
+			if r := recover(); r != nil {
+				done <- fmt.Errorf("panic: %v", r)
+			}
+		}()
+		_, err := sharedInterpreter.Exec(ctx, match.Bindings{"n": 1.0}, nil, "for(;;){}", nil)
+		done <- err
+	}()
+	oc := "hang"
+	select {
+	case err := <-done:
+		switch {
+		case err == nil:
+			oc = "done"
+		case errors.Is(err, ecmascript.Interrupted):
+			oc = "interrupted"
+		default:
+			oc = "other"
+		}
+		if el := time.Since(t0); el > promptSlack {
+			b.Prompt = false
+		} else {
+			b.WorstMs = el.Milliseconds()
+		}
+	case <-time.After(hangLimit):
+		b.Prompt = false
+		tHangSeen = true
+	}
+	<-first
+	b.Outcomes = []string{oc}
+	if oc != "hang" {
+		b.After = settleGoroutines(b.Before, 2*time.Second)
+		b.Leak = b.After > b.Before
+	}
+	return b
+}
+
 func (b *tBatch) coq() string {
 	ocs := make([]string, len(b.Outcomes))
 	for i, oc := range b.Outcomes {
@@ -379,6 +436,20 @@ func jstimeoutComponent(g *G, n int, opts map[string]string) *Out {
 		key := fmt.Sprintf("%s/%d/%v/%d/%d", p.sh.Name, p.deadline, p.explicit, p.conc, p.route)
 		// non-trivial: an endless script that had to be stopped, or a finite one whose watcher has to go away
 		o.add(b.coq(), key, true, b)
+	}
+	if opts["replay"] == "" && !tHangSeen {
+		for k := 0; k < 2; k++ {
+			b := lateJoinerBatch(time.Duration(300+200*k) * time.Millisecond)
+			execs++
+			o.count("shape:late-joiner")
+			for _, oc := range b.Outcomes {
+				o.count("outcome:" + oc)
+			}
+			if !b.Prompt {
+				o.count("not-prompt")
+			}
+			o.add(b.coq(), fmt.Sprintf("late-joiner/%d", k), true, b)
+		}
 	}
 	o.Notes = append(o.Notes, fmt.Sprintf("%d executions in %d batches; slack %v, hang after deadline + %v", execs, o.Evals, promptSlack, hangLimit),
 		"non-trivial = every batch: an endless script that must be stopped, or a finite one whose watcher must end with the call")
